@@ -14,7 +14,6 @@ import (
 	"fmt"
 	"io"
 	"net"
-	"path"
 	"sort"
 	"strconv"
 	"strings"
@@ -164,6 +163,84 @@ func (s *Server) live(k string) *entry {
 		return nil
 	}
 	return e
+}
+
+// globMatch is redis' stringmatchlen for the subset `*`, `?`, `[...]` (with ranges and ^) and `\\` escapes;
+// unlike path.Match, `*` also matches `/`.
+func globMatch(pat, s string) bool {
+	for len(pat) > 0 {
+		switch pat[0] {
+		case '*':
+			for len(pat) > 1 && pat[1] == '*' {
+				pat = pat[1:]
+			}
+			if len(pat) == 1 {
+				return true
+			}
+			for i := 0; i <= len(s); i++ {
+				if globMatch(pat[1:], s[i:]) {
+					return true
+				}
+			}
+			return false
+		case '?':
+			if len(s) == 0 {
+				return false
+			}
+			s, pat = s[1:], pat[1:]
+		case '[':
+			if len(s) == 0 {
+				return false
+			}
+			p := pat[1:]
+			not := len(p) > 0 && p[0] == '^'
+			if not {
+				p = p[1:]
+			}
+			match := false
+			for len(p) > 0 && p[0] != ']' {
+				switch {
+				case p[0] == '\\' && len(p) >= 2:
+					if p[1] == s[0] {
+						match = true
+					}
+					p = p[2:]
+				case len(p) >= 3 && p[1] == '-' && p[2] != ']':
+					lo, hi := p[0], p[2]
+					if lo > hi {
+						lo, hi = hi, lo
+					}
+					if s[0] >= lo && s[0] <= hi {
+						match = true
+					}
+					p = p[3:]
+				default:
+					if p[0] == s[0] {
+						match = true
+					}
+					p = p[1:]
+				}
+			}
+			if len(p) > 0 {
+				p = p[1:] // the closing bracket
+			}
+			if match == not {
+				return false
+			}
+			s, pat = s[1:], p
+		case '\\':
+			if len(pat) >= 2 {
+				pat = pat[1:]
+			}
+			fallthrough
+		default:
+			if len(s) == 0 || s[0] != pat[0] {
+				return false
+			}
+			s, pat = s[1:], pat[1:]
+		}
+	}
+	return len(s) == 0
 }
 
 func bulk(b []byte) string { return "$" + strconv.Itoa(len(b)) + "\r\n" + string(b) + "\r\n" }
@@ -336,7 +413,7 @@ func (s *Server) exec(args []string) string {
 		}
 		var ks []string
 		for _, k := range all[:work] {
-			if ok, _ := path.Match(pat, k); ok {
+			if globMatch(pat, k) {
 				ks = append(ks, k)
 			}
 		}
